@@ -556,10 +556,23 @@ class C04Check(StatCheck):
             base_tag = 0
             if sliding:
                 expected = None
-            for _ in range(R):
+            window_tags = list(range(m))
+            last_obj = None
+            for trial in range(R):
+                duplicate = False
                 if sliding:
-                    storage.update(c04_row(next_tag, d), 0.5)
-                    next_tag += 1
+                    if last_obj is not None and trial % 5 == 4:
+                        # another party hands the very same dict object over again (e.g. a second explainer that also
+                        # updates the shared storage): the window then holds that row twice
+                        storage.update(last_obj, 0.5)
+                        window_tags = (window_tags + [window_tags[-1]])[-m:]
+                        probes["same_object_pushed_again"] += 1
+                    else:
+                        last_obj = c04_row(next_tag, d)
+                        storage.update(last_obj, 0.5)
+                        window_tags = (window_tags + [next_tag])[-m:]
+                        next_tag += 1
+                    duplicate = len(set(window_tags)) < m
                     base_tag = next_tag - m
                     probes["window_slid"] += 1
                 del model.log[:]
@@ -567,14 +580,17 @@ class C04Check(StatCheck):
                 log = model.log
                 if sliding:
                     stale = None
+                    allowed = set(window_tags)
                     for inp in log[1:]:
                         for f in names:
-                            if inp[f] != x[f] and not (base_tag <= c04_tag(inp[f]) < next_tag):
+                            if inp[f] != x[f] and c04_tag(inp[f]) not in allowed:
                                 stale = (f, inp[f])
                     if stale:
                         det = ("row-not-currently-stored", "feature %s imputed with %r, a value of no row in the current "
-                               "window (tags %d..%d)" % (stale[0], stale[1], base_tag, next_tag - 1))
+                               "window (tags %r)" % (stale[0], stale[1], window_tags))
                         break
+                    if duplicate:
+                        continue        # a row held twice is twice as likely: left out of the uniformity statistics
                     # positions inside the current window play the role of row indices
                     log = [log[0]] + [{f: (v if v == x[f] else (c04_tag(v) - base_tag) * 8 + j + 1)
                                        for j, (f, v) in enumerate(((f, inp[f]) for f in names))} for inp in log[1:]]
